@@ -1,17 +1,19 @@
 """Sidecar contracts (DESIGN.md Appendix A). One module per repository module."""
 def install_all(reg):
-    from pyvc import sdmodel, pnmodel, strmodel, vsmodel, itermodel
+    from pyvc import sdmodel, pnmodel, strmodel, vsmodel, itermodel, aspmodel
     strmodel.install(reg)
     sdmodel.install(reg)
     pnmodel.install(reg)
     vsmodel.install(reg)
     itermodel.install(reg)
+    aspmodel.install(reg)
     from . import space_utils, deps, succession_diagram, algorithms, petri_net, trappist
     space_utils.install(reg)
     deps.install(reg)
     petri_net.install(reg)
     trappist.install(reg)
     trappist.install_models(reg)
+    trappist.install_programs(reg)
     succession_diagram.install(reg)
     succession_diagram._install_skip(reg)
     succession_diagram._install_skip2(reg)
